@@ -448,6 +448,18 @@ int flatcc_builder_custom_reset(flatcc_builder_t *B, int set_defaults, int reduc
         B->vd_end = sizeof(vtable_descriptor_t);
     }
     B->min_align = 0;
+    /*
+     * State of the open buffer / table that is otherwise only restored by
+     * the matching end call: an abandoned build leaves it set, and
+     * create_buffer at top level inherits block_align.
+     */
+    B->block_align = 0;
+    B->align = 0;
+    B->buffer_mark = 0;
+    B->buffer_flags = 0;
+    B->identifier = 0;
+    B->id_end = 0;
+    B->vt_hash = 0;
     B->emit_start = 0;
     B->emit_end = 0;
     B->level = 0;
